@@ -17,7 +17,7 @@ compares ParseString's accept/reject, checks the print/parse round trip, sends
 a slice through CreateSubscription / UpdateSubscription and runs a seeded
 byte-string fuzzer (totality and round trip only, reported separately).
 """
-import concurrent.futures, json, os, re, shutil, subprocess, sys, time
+import concurrent.futures, hashlib, json, os, re, shutil, subprocess, sys, time
 sys.path.insert(0, os.path.join(os.path.dirname(os.path.abspath(__file__)), "..", "lib"))
 import vlib
 from vlib import ToolError
@@ -177,7 +177,7 @@ def verdict(ctx, res, replay_path=None):
         if replay_path:
             path = replay_path
         else:
-            name = re.sub(r"[^A-Za-z0-9]+", "-", "%s-%s" % (v["clause"].split(":", 1)[-1], v["detail"]))[:60] + "-s%d" % ctx.seed
+            name = re.sub(r"[^A-Za-z0-9]+", "-", "%s-%s" % (v["clause"].split(":", 1)[-1], v["detail"]))[:60] + "-%s-s%d" % (hashlib.sha1(vlib.signature(v).encode()).hexdigest()[:6], ctx.seed)
             path = vlib.save_replay(ctx, name, {"prop": prop, "seed": ctx.seed, "tier": ctx.tier, "replay": ex["replay"],
                                                 "violation": {"clause": v["clause"], "detail": v["detail"], "msg": ex["msg"]}})
         print("VIOLATION property=%s replay=%s clause=%s detail=%s occurrences=%d %s" % (
@@ -256,9 +256,6 @@ def _run(ctx, replay):
     if prop == "C07":
         if cnt.get("asts", 0) != cases:
             raise ToolError("TLC printed %d cases but filtercheck consumed %d" % (cases, cnt.get("asts", 0)))
-        agree_n = 0
-        for r in tl:
-            pass
         cov = {
             "evaluations": int(cnt.get("evaluations", 0)),
             "distinct_nontrivial": int(cnt.get("distinct_nontrivial", 0)),
